@@ -88,6 +88,10 @@ func (c *CodecConn[Enc, Dec]) ReadNext() (Dec, error) {
 func (c *CodecConn[Enc, Dec]) WriteNext(item Enc) (n int, err error) {
 	err = c.codec.Encode(item, c.dst)
 	if err == nil {
+		// Make whatever the encoder left in the write area visible to WriteTo. Encoders are expected to Commit
+		// themselves, but one that does not (codec/frame) would otherwise have nothing sent and the item would stay
+		// behind in dst.
+		c.dst.Commit(c.dst.WriteLen())
 		var nn int64
 		nn, err = c.dst.WriteTo(c.stream)
 		n = int(nn)
@@ -98,6 +102,7 @@ func (c *CodecConn[Enc, Dec]) WriteNext(item Enc) (n int, err error) {
 func (c *CodecConn[Enc, Dec]) AsyncWriteNext(item Enc, cb AsyncCallback) {
 	err := c.codec.Encode(item, c.dst)
 	if err == nil {
+		c.dst.Commit(c.dst.WriteLen()) // see WriteNext
 		c.dst.AsyncWriteTo(c.stream, cb)
 	} else {
 		cb(err, 0)
